@@ -610,7 +610,7 @@ def a64_nontrivial(ast):
 # ----------------------------------------------------------------------------------------------------------------------
 # non-instruction lines and whole files
 # ----------------------------------------------------------------------------------------------------------------------
-LABEL_HEADS = [".L", ".LBB0_", ".LFB", "foo", "main", "_Z6kernelPdS_", "loop_", ".Ltmp", "triad.", "func", "_start", "L"]
+LABEL_HEADS = [".L", ".LBB0_", ".LFB", "foo", "main", "_Z6kernelPdS_", "loop_", ".Ltmp", "triad.", "func", "_start", "L", ".L.str.", ".Lstr.", ".LBB0_1.cold"]
 DIRECTIVES_COMMON = [
     ("text", ""), ("data", ""), ("cfi_startproc", ""), ("cfi_endproc", ""), ("p2align", "4,,10"), ("p2align", "3"), ("align", "16"),
     ("globl", "kernel"), ("global", "main"), ("loc", "1 23 0"), ("file", '"triad.c"'), ("ident", '"GCC: (GNU) 12.2.0"'),
